@@ -196,8 +196,13 @@ class ControlFlowTransformer(converter.Base):
     # Variables that are modified inside the scope, but not defined
     # before entering it. Only simple variables must be defined. The
     # composite ones will be implicitly checked at runtime.
+    # A variable whose value is dead on entry is treated the same way, even if
+    # it is defined: the statement may end up inside a generated function in
+    # which the variable is a fresh, still unbound local (e.g. the code that
+    # follows a loop with a lowered return), and the state getter reads it.
     possibly_undefined = (
-        modified - defined_in - fn_scope.globals - fn_scope.nonlocals)
+        modified - (defined_in & live_in) - fn_scope.globals -
+        fn_scope.nonlocals)
     undefined = tuple(v for v in possibly_undefined if not v.is_composite())
 
     # Variables that are modified inside the scope, and depend on values outside
